@@ -35,20 +35,36 @@ def run(ctx):
     f = prog.method('Reaction', 'dH', rel=RX)
     # ---- D2: extract table
     table = {}
-    loop_ok = False
+    defs = {}
+    for n in walk_no_nested(f.node):
+        if isinstance(n, ast.Assign) and len(n.targets) == 1 and isinstance(n.targets[0], ast.Name):
+            defs.setdefault(n.targets[0].id, []).append(n.value)
+    lat = [k for k, v in defs.items() if any(isinstance(x, ast.Call) and src(x.func) == 'np.zeros_like' for x in v)]
+    if len(lat) != 1:
+        raise AnalysisError('Reaction.dH: latent-heat array not found')
+    LAT = lat[0]
+    ref_names = {k for k, v in defs.items() if any(src(x).endswith('.phase_ref') for x in v)}
+    loops = [n for n in walk_no_nested(f.node) if isinstance(n, ast.For) and isinstance(n.iter, ast.Call) and src(n.iter.func) == 'enumerate'
+             and isinstance(n.target, ast.Tuple) and len(n.target.elts) == 2]
+    ph_loop = [l for l in loops if src(l.iter.args[0]) in ('self.phases', 'phases')]
+    ch_loop = [l for l in loops if l not in ph_loop]
+    if not ph_loop or not ch_loop:
+        raise AnalysisError('Reaction.dH: (phase, chemical) loops not found')
+    i_name, phase_name = (t.id for t in ph_loop[0].target.elts)
+    j_name, chem_name = (t.id for t in ch_loop[0].target.elts)
 
     def walk_if(node, conds):
         if isinstance(node, ast.If):
             walk_body(node.body, conds + [(node.test, True)])
             walk_body(node.orelse, conds + [(node.test, False)])
         elif isinstance(node, ast.Assign) and isinstance(node.targets[0], ast.Subscript) \
-                and src(node.targets[0].value) == 'H_latent':
+                and src(node.targets[0].value) == LAT:
             pr = ph = None
             for t, taken in conds:
                 if taken and isinstance(t, ast.Compare) and isinstance(t.ops[0], ast.Eq) and isinstance(t.comparators[0], ast.Constant):
-                    if src(t.left) == 'phase_ref':
+                    if src(t.left) in ref_names:
                         pr = t.comparators[0].value
-                    elif src(t.left) == 'phase':
+                    elif src(t.left) == phase_name:
                         ph = t.comparators[0].value
             table[(pr, ph)] = (node, conds)
         elif isinstance(node, (ast.For,)):
@@ -62,12 +78,12 @@ def run(ctx):
 
     def hook(node, lin):
         s = src(node)
-        if s.startswith('chemical.Hvap('):
+        if s.startswith('%s.Hvap(' % chem_name):
             return Form.atom('Hvap')
         return None
 
     def attr_hook(node, lin):
-        if src(node) == 'chemical.Hfus':
+        if src(node) == '%s.Hfus' % chem_name:
             return Form.atom('Hfus')
         return None
     for pr in 'slg':
@@ -81,19 +97,13 @@ def run(ctx):
                 continue
             got = Lin(call_hook=hook, attr_hook=attr_hook).form(ent[0].value)
             want = h[ph] - h[pr]
-            # guard: only when phase_ref != phase and the coefficient is non-zero
             if got == want:
                 d2.ok(cons, 'latent = %s = h[%s]-h[%s]' % (got.pretty(), ph, pr), f, ent[0])
             else:
                 d2.fail(cons, 'value', 'latent heat is %s, expected h[%s]-h[%s] = %s' % (got.pretty(), ph, pr, want.pretty()), f, ent[0])
-    # the index written is [i, j] of the loops over (phases, chemicals)
-    idx_ok = all(src(n.targets[0].slice).strip('()') == 'i, j' for n, c in table.values())
-    loops = [n for n in walk_no_nested(f.node) if isinstance(n, ast.For)]
-    lp_ok = len(loops) >= 2 and src(loops[0].iter) == 'enumerate(self.phases)' and src(loops[1].iter) == 'enumerate(chemicals)'
-    # walk_no_nested order is not guaranteed; test as a set
-    iters = {src(l.iter) for l in loops}
-    lp_ok = {'enumerate(self.phases)', 'enumerate(chemicals)'} <= iters
-    if idx_ok and lp_ok:
+    # the index written is [phase row, chemical column] of the loops
+    idx_ok = bool(table) and all(src(n.targets[0].slice).strip('()') == '%s, %s' % (i_name, j_name) for n, c in table.values())
+    if idx_ok:
         d2.ok('Reaction.dH[latent index]', 'entries are written at [phase row i, chemical j] of the enumerate loops', f)
     else:
         d2.fail('Reaction.dH[latent index]', 'index', 'latent entries are not written at [i, j] of the (phase, chemical) loops', f, f.node)
@@ -102,11 +112,19 @@ def run(ctx):
     for phases, wt in ((False, False), (False, True), (True, False), (True, True)):
         def decide(t, st, phases=phases, wt=wt):
             s = src(t)
-            if s == 'phases':
+            if st is not None and hasattr(st, 'lin'):
+                try:
+                    rs = st.lin.text(t)
+                except Exception:
+                    rs = s
+            else:
+                rs = s
+            if rs in ('self.phases', 'phases') or s == 'phases':
                 return phases
             if s == "self._basis == 'wt'":
                 return wt
-            if s.startswith('phase_ref') or s.startswith('phase =='):
+            if isinstance(t, ast.BoolOp) or (isinstance(t, ast.Compare) and isinstance(t.comparators[0], ast.Constant)
+                                             and isinstance(t.comparators[0].value, str) and t.comparators[0].value in 'slg'):
                 return False
             return None
         ps, _ = run_paths(f.node, decide=decide)
@@ -116,27 +134,18 @@ def run(ctx):
             d1.fail(cons, 'shape', 'dH has %d normal paths under these flags' % len(ps), f, f.node)
             continue
         hf = 'self.chemicals.Hf'
-        hfs = '(%s + np.zeros_like(self._stoichiometry.to_array()))' % hf if phases else hf
-        got = ps[0].ret.pretty()
         S = 'self._stoichiometry.to_array()'
-        if phases:
-            inner = '(H_latent + %s)' % hf
-        # accept the form  self._X * (<Hfs>*S).sum()  with Hfs = Hf [+ H_latent] [/ MWs]
-        rn = ps[0].ret_node.value
-        okk = isinstance(rn, ast.BinOp) and isinstance(rn.op, ast.Mult) and src(rn.left) == 'self._X' \
-            and src(rn.right) == '(Hfs * stoichiometry).sum()'
-        env = ps[0].lin.env
-        hform = env.get('Hfs')
         want = Form.atom(hf)
         if phases:
             want = want + Form.atom('np.zeros_like(%s)' % S)
         if wt:
             want = want * Form({(('self.MWs', -1),): 1})
-        okk = okk and hform == want and env.get('stoichiometry') == Form.atom(S)
-        if okk:
+        prod = want * Form.atom(S)
+        want_ret = Form.atom('self._X') * Form.atom('(%s).sum()' % prod.pretty())
+        if ps[0].ret == want_ret:
             d1.ok(cons, 'dH = self._X * ((%s) * S).sum()' % want.pretty(), f, ps[0].ret_node)
         else:
-            d1.fail(cons, 'form', 'dH is not X*sum((Hf+latent)*S%s): returns %s with Hfs=%s' % ('/MW' if wt else '', src(rn), hform), f, ps[0].ret_node)
+            d1.fail(cons, 'form', 'dH is not X*sum((Hf+latent)*S%s): returns %s' % ('/MW' if wt else '', ps[0].ret.pretty()), f, ps[0].ret_node)
 
     # ---- D3
     g = prog.method('Reaction', 'adiabatic_reaction', rel=RX)
@@ -185,9 +194,14 @@ def run(ctx):
         d4.fail('Stream.Hf', 'form', 'Hf is not sum(chemicals.Hf*mol)', hf, hf.node)
     cc = prog.method('CompiledChemicals', '_compile', rel=CHS)
     found = False
+    dict_names = set()
     for n in walk_no_nested(cc.node):
-        if isinstance(n, ast.Assign) and src(n.targets[0]) == "dct['Hf']":
-            found = src(n.value) == "chemical_data_array(chemicals, 'Hf')"
+        if isinstance(n, ast.Assign) and src(n.value) == 'self.__dict__':
+            dict_names |= {t.id for t in n.targets if isinstance(t, ast.Name)}
+    for n in walk_no_nested(cc.node):
+        if isinstance(n, ast.Assign) and isinstance(n.targets[0], ast.Subscript) and src(n.targets[0].value) in dict_names \
+                and src(n.targets[0].slice) == "'Hf'":
+            found = src(n.value) == "chemical_data_array(%s, 'Hf')" % cc.params[1]
     if found:
         d4.ok('CompiledChemicals._compile', "Hf array = chemical_data_array(chemicals, 'Hf')", cc)
     else:
